@@ -447,16 +447,33 @@ func Dominates(a, b ssa.Instruction) bool {
 // function entry to a normal return that (a) passes a licensing edge of every predicate
 // in preds (and does not afterwards take the opposite edge of the same test) and
 // (b) does not execute an instruction matching effect. It returns ok and a witness.
+// Paths that take contradictory edges of tests on the very same SSA value (e.g. the cases
+// `x == true` and `x == false` of one switch) are infeasible and pruned; the memory of
+// tested values is dropped on loop back edges.
 func MustFollow(fn *ssa.Function, preds []Pred, effect func(ssa.Instruction) bool) (bool, []string) {
+	const maxP = 8
+	if len(preds) > maxP {
+		preds = preds[:maxP]
+	}
 	type state struct {
 		s     bstate
 		flags uint32
+		est   [maxP]ssa.Value // atom that established pred i on this path
+		ref   [maxP]ssa.Value // atom that refuted pred i on this path
 	}
 	full := uint32(1)<<uint(len(preds)) - 1
-	start := state{bstate{fn.Blocks[0], -1}, 0}
+	start := state{s: bstate{fn.Blocks[0], -1}}
 	seen := map[state]bool{start: true}
 	prev := map[state]state{}
 	queue := []state{start}
+	atomOf := func(s bstate) ssa.Value {
+		cond, _, ok := effCond(s)
+		if !ok {
+			return nil
+		}
+		a := Normalize(cond)
+		return a.V
+	}
 	for len(queue) > 0 {
 		s := queue[0]
 		queue = queue[1:]
@@ -483,9 +500,11 @@ func MustFollow(fn *ssa.Function, preds []Pred, effect func(ssa.Instruction) boo
 			continue
 		}
 		idx, nxt := succStates(s.s)
+		av := atomOf(s.s)
 		for k, nb := range nxt {
 			i := idx[k]
-			fl := s.flags
+			ns := state{s: nb, flags: s.flags, est: s.est, ref: s.ref}
+			infeasible := false
 			for pi, p := range preds {
 				lic := licensedFrom(s.s, p)
 				if len(lic) == 0 {
@@ -498,12 +517,27 @@ func MustFollow(fn *ssa.Function, preds []Pred, effect func(ssa.Instruction) boo
 					}
 				}
 				if isLic {
-					fl |= 1 << uint(pi)
+					if av != nil && ns.ref[pi] == av {
+						infeasible = true
+					}
+					ns.flags |= 1 << uint(pi)
+					ns.est[pi] = av
 				} else {
-					fl &^= 1 << uint(pi)
+					if av != nil && ns.est[pi] == av && ns.flags&(1<<uint(pi)) != 0 {
+						infeasible = true
+					}
+					ns.flags &^= 1 << uint(pi)
+					ns.est[pi] = nil
+					ns.ref[pi] = av
 				}
 			}
-			ns := state{nb, fl}
+			if infeasible {
+				continue
+			}
+			if nb.b.Dominates(s.s.b) { // loop back edge: values are recomputed
+				ns.est = [maxP]ssa.Value{}
+				ns.ref = [maxP]ssa.Value{}
+			}
 			if !seen[ns] {
 				seen[ns] = true
 				prev[ns] = s
